@@ -17,6 +17,7 @@ mod c11;
 mod c12;
 mod c15;
 mod c16;
+mod c17lsp;
 mod c18;
 mod c20;
 mod e2;
@@ -58,6 +59,7 @@ fn checks_for(property: &str, tier: Tier) -> Vec<Box<dyn Check>> {
         | "C09" => c09::checks(tier),
         | "C10" => c10::checks(tier),
         | "C11" => c11::checks(tier),
+        | "C17" => vec![Box::new(c17lsp::LspProtocol::new(tier))],
         | "C20" => c20::checks(tier),
         | _ => vec![],
     }
